@@ -118,6 +118,8 @@ package iscp
 //@ define idFullForm(x): typeis(x, *message.DataID) && unbox(x, *message.DataID) != nil
 //@ define wfGroups(gs): forall(i, int, imp(0 <= i && i < len(gs), gs[i] != nil && (idAliasForm(gs[i].DataIDOrAlias) || idFullForm(gs[i].DataIDOrAlias))))
 //@ define knownID(d, x): imp(idAliasForm(x), has(d.dataIDAliases, unbox(x, message.DataIDAlias)))
+//@ define resolvedID(d, x): ite(idAliasForm(x), *d.dataIDAliases[unbox(x, message.DataIDAlias)], *unbox(x, *message.DataID))
+//@ define groupOK(d, g, w): g != nil && g.DataID != nil && g.DataPoints == w.DataPoints && *g.DataID == resolvedID(d, w.DataIDOrAlias)
 
 //@ func (*Downstream).wireToDownstreamChunk
 //@   props C03
@@ -135,4 +137,6 @@ package iscp
 //@   ensures imp(result1 == nil && upAliasForm(dps.UpstreamOrAlias), *result0.UpstreamInfo == *d.upstreamInfos[unbox(dps.UpstreamOrAlias, message.UpstreamAlias)])
 //@   ensures imp(result1 == nil && upFullForm(dps.UpstreamOrAlias), *result0.UpstreamInfo == *unbox(dps.UpstreamOrAlias, *message.UpstreamInfo))
 //@   loop 1 invariant fresh(dpgs) && len(dpgs) == rangeindex + 1 && rangeindex < len(dps.StreamChunk.DataPointGroups)
+//@   ensures imp(result1 == nil, forall(i, int, imp(0 <= i && i < len(dps.StreamChunk.DataPointGroups), groupOK(d, result0.DataPointGroups[i], dps.StreamChunk.DataPointGroups[i]))))
 //@   loop 1 invariant forall(i, int, imp(0 <= i && i <= rangeindex, knownID(d, dps.StreamChunk.DataPointGroups[i].DataIDOrAlias)))
+//@   loop 1 invariant forall(i, int, imp(0 <= i && i <= rangeindex, groupOK(d, dpgs[i], dps.StreamChunk.DataPointGroups[i])))
